@@ -17,6 +17,8 @@ import re
 IDX = re.compile(r"^\[_(\d+)\]$")
 HERE = os.path.dirname(os.path.abspath(__file__))
 MAX_BLOCKS = 1500
+# names too generic to identify an anchor (a *new* `FileBinding::new` is a helper like any other)
+COMMON_NAMES = {"new", "default", "from", "try_from", "into", "build", "get", "set", "parse", "from_str", "as_str", "with", "of", "create", "open", "load", "save", "run", "apply", "check", "validate"}
 
 
 def rule_names():
@@ -108,7 +110,7 @@ class Inliner:
         p = fd["path"]
         if "::test_util" in p or "::tests::" in p or "::test_utils" in p:
             return False
-        if fd.get("name") in self.deny:
+        if fd.get("name") in self.deny and fd.get("name") not in COMMON_NAMES:
             return False
         if self.known is None or p in self.known:
             return False
